@@ -151,3 +151,60 @@ Definition mod_ok (m : mod_case) : bool :=
 (* detail for one module: (unexplained violations, violations not targeting code, lexer ok) *)
 Definition mod_report (m : mod_case) : list nat * list nat * bool :=
   (failing (viol_explained m) 0 (m_viol m), failing (viol_targets_code m) 0 (m_viol m), lexer_agrees m).
+
+(* ---- sequences of calls on ONE instance of the Fmt fix (opa-fmt / use-rego-v1) ----
+   The harness takes the instance the fixer would use (fixes.NewDefaultFixes()) or one built with given
+   options, calls Fix for a list of candidates in order and records after every call what was returned
+   and the RegoVersion left in the options.  The oracles of the model are tabulated by the harness
+   without the fix: its own parse of the candidate (the module's version) and OPA's formatter called
+   directly for every target version. *)
+Record fmt_obs := {
+  fo_cand : fmt_cand;
+  fo_parsed : option rver;
+  fo_table : list (rver * option str);
+  fo_out : fmt_out;
+  fo_state : rver }.
+
+Record fmt_seq := { fq_init : rver; fq_other : N; fq_steps : list fmt_obs }.
+
+Definition cand_is (v : rver) (name contents : str) (o : fmt_obs) : bool :=
+  rver_eqb (fc_version (fo_cand o)) v && str_eqb (fc_name (fo_cand o)) name
+  && str_eqb (fc_contents (fo_cand o)) contents.
+
+Definition tab_parse (all : list fmt_obs) (v : rver) (name contents : str) : option rver :=
+  match find (cand_is v name contents) all with
+  | Some o => fo_parsed o
+  | None => None
+  end.
+
+(* the table holds the formatter's output with the other options at their zero value *)
+Definition tab_format (all : list fmt_obs) (target : rver) (other : N) (v : rver) (name contents : str)
+  : option str :=
+  if negb (other =? 0) then None else
+  match find (cand_is v name contents) all with
+  | Some o => match find (fun p => rver_eqb (fst p) target) (fo_table o) with
+              | Some p => snd p
+              | None => None
+              end
+  | None => None
+  end.
+
+Definition fmt_out_eqb (a b : fmt_out) : bool :=
+  match a, b with
+  | FmtErr, FmtErr | FmtNone, FmtNone => true
+  | FmtChanged x, FmtChanged y => str_eqb x y
+  | _, _ => false
+  end.
+
+Fixpoint fmt_seq_go (all : list fmt_obs) (st : fmt_state) (steps : list fmt_obs) : bool :=
+  match steps with
+  | [] => true
+  | o :: t =>
+      let r := fmt_fix (tab_parse all) (tab_format all) st (fo_cand o) in
+      fmt_out_eqb (snd r) (fo_out o) && rver_eqb (fs_version (fst r)) (fo_state o)
+      && fmt_seq_go all (fst r) t
+  end.
+
+Definition fmt_seq_agrees (q : fmt_seq) : bool :=
+  (fq_other q =? 0)
+  && fmt_seq_go (fq_steps q) {| fs_version := fq_init q; fs_other := fq_other q |} (fq_steps q).
